@@ -429,7 +429,7 @@ class SymInt:
         return self
 
     def __abs__(self):
-        raise EngineLimit('abs() of symbolic int')
+        return ite(self < 0, -self, self)
 
     def __mul__(self, o):
         o = _co(o)
